@@ -1089,7 +1089,7 @@ class ChoiceMap(Pytree):
 
         for addr, v in pairs:
             addr = addr if isinstance(addr, tuple) else (addr,)
-            acc |= ChoiceMap.entry(v, *addr)
+            acc = ChoiceMap.entry(v, *addr) | acc
 
         return acc
 
